@@ -197,7 +197,7 @@ class DecisionTranslator(FnTranslator):
         k = s['kind']
         if k == 'CompoundStmt':
             return self.stmts(s.get('inner', []) + rest, env, acted)
-        if k == 'NullStmt' or (k == 'ParenExpr' and norm_type(qt(s)) == 'void'):
+        if k == 'NullStmt' or (k == 'ParenExpr' and norm_type(qt(s)) == 'void') or (k == 'CStyleCastExpr' and s.get('castKind') == 'ToVoid'):
             return self.stmts(rest, env, acted)
         if k == 'ReturnStmt':
             if s.get('inner'):
